@@ -195,7 +195,16 @@ def fcases(tier, seed):
                     progs["literal"] = "%s %s %s" % (flit(a), sym, flit(b))
                 if kind == "float":
                     progs["compound"] = "c := mut %s; r := (c %s= %s); (r, *c)" % (fsrc(a), sym, fsrc(b))
-                if tier == "quick":
+                # mixed forms: one operand a literal the folder sees (and may want to simplify away:
+                # x + 0.0, x * 1.0, x ** 1.0, ...), the other known only at run time
+                if flit(b):
+                    progs["mixed-rhs-literal"] = "f := (a: float) -> %s { return a %s %s }; f(%s)" % (kind, sym, flit(b), fsrc(a))
+                if flit(a):
+                    progs["mixed-lhs-literal"] = "f := (b: float) -> %s { return %s %s b }; f(%s)" % (kind, flit(a), sym, fsrc(b))
+                units = (0.0, 1.0, -1.0, 2.0)
+                if tier == "quick" and (a in units or b in units) and (fbits(a)[1:] == "000000000000000" or fbits(b)[1:] == "000000000000000" or a != a or b != b or a in units and b in units):
+                    pass   # identity / absorbing candidates next to signed zeros and NaN: every form, also in the quick tier
+                elif tier == "quick":
                     k = rnd.choice(list(progs))
                     progs = {k: progs[k]}
                 for form, p in progs.items():
